@@ -4,7 +4,8 @@
 (*                                                                         *)
 (*  * enumerates the finite universe (every log of at most MaxLines lines, *)
 (*    every assignment of length classes, one file / reader over one file  *)
-(*    / reader over two files split at every place incl. empty parts);     *)
+(*    / reader over two files split at every place incl. empty parts; plus *)
+(*    the record-layout dimension, LayoutConfigs);                         *)
 (*  * adds the history variable `hist` (what kind of seek was made last    *)
 (*    and which lines were returned since) and states the sentences of the *)
 (*    property over it, for ALL histories of SeekStart / ReadNext /        *)
@@ -21,13 +22,15 @@
 (***************************************************************************)
 EXTENDS QLogFile, Json
 
-CONSTANTS MaxLines, LenClasses
+CONSTANTS MaxLines, LenClasses,
+          LayoutSet     \* the layouts enumerated: all of Layouts for the emission, two for the
+                        \* exhaustive run over all histories (no action reads `lay`)
 
 VARIABLES hist, st
 pvars == <<files, level, cur, out, hist, st>>
 
 \* ------------------------------------------------------------ the universe
-LinesOf(cs, from) == [i \in 1..Len(cs) |-> [ts |-> 2 * (from + i), len |-> cs[i]]]
+LinesOf(cs, from) == [i \in 1..Len(cs) |-> [ts |-> 2 * (from + i), len |-> cs[i], lay |-> AnyLayout]]
 
 LenSeqs == UNION {[1..n -> LenClasses] : n \in 0..MaxLines}
 
@@ -39,6 +42,20 @@ Configs ==
     \cup UNION {{[level |-> "reader",
                   files |-> <<LinesOf(SubSeq(cs, 1, c), 0), LinesOf(SubSeq(cs, c + 1, Len(cs)), c)>>]
                  : c \in 0..Len(cs)} : cs \in LenSeqs}
+
+\* The layout dimension: logs of three shortest-possible lines in which the
+\* middle line, or every line, has layout y, for EVERY y in Layouts, as one
+\* file and as rotated + current file -- a seek to the timestamp of every
+\* stored entry must land on it whatever its serialisation (and the entries
+\* around it must stay reachable).
+LayLines(ys, from) == [i \in 1..Len(ys) |-> [ts |-> 2 * (from + i), len |-> "t", lay |-> ys[i]]]
+LayoutConfigs ==
+    UNION {{[level |-> "file",   files |-> <<LayLines(ys, 0)>>],
+            [level |-> "reader", files |-> <<LayLines(<<ys[1]>>, 0), LayLines(<<ys[2], ys[3]>>, 1)>>],
+            [level |-> "reader", files |-> <<LayLines(<<ys[1], ys[2]>>, 0), LayLines(<<ys[3]>>, 2)>>]}
+           : ys \in {<<DefaultLayout, y, DefaultLayout>> : y \in LayoutSet} \cup {<<y, y, y>> : y \in LayoutSet}}
+
+McLayouts == {DefaultLayout, [order |-> "long1100", addr |-> "v6z", tsf |-> "nsoff"]}
 
 \* ------------------------------------------------------- emitted relation
 \* Everything below is computed from the spec's own operators on a given log.
@@ -65,7 +82,7 @@ NoHist == [kind |-> "none", t |-> 0, reads |-> <<>>]
 Init == /\ st = "pick" /\ files = <<>> /\ level = "none" /\ InitReader /\ hist = NoHist
 
 Pick == /\ st = "pick"
-        /\ \E c \in Configs : /\ files' = c.files /\ level' = c.level
+        /\ \E c \in Configs \cup LayoutConfigs : /\ files' = c.files /\ level' = c.level
                               /\ Emit(c)
         /\ st' = "run"
         /\ UNCHANGED <<cur, out, hist>>
